@@ -2,7 +2,10 @@ module verif/harness
 
 go 1.25.0
 
-require github.com/cilium/statedb v0.0.0
+require (
+	github.com/cilium/statedb v0.0.0
+	go.yaml.in/yaml/v3 v3.0.4
+)
 
 require (
 	github.com/cilium/hive v1.0.4 // indirect
@@ -22,7 +25,6 @@ require (
 	github.com/spf13/viper v1.18.2 // indirect
 	github.com/subosito/gotenv v1.6.0 // indirect
 	go.uber.org/dig v1.17.1 // indirect
-	go.yaml.in/yaml/v3 v3.0.4 // indirect
 	golang.org/x/sys v0.17.0 // indirect
 	golang.org/x/term v0.16.0 // indirect
 	golang.org/x/text v0.14.0 // indirect
